@@ -342,6 +342,7 @@ public:
 
   iterator& operator++() {
     assert(info.cur.get() != nullptr);
+  retry:
     auto next = info.cur->next.load(std::memory_order_relaxed);
     guard_ptr tmp_guard;
     // (1) - this acquire-load synchronizes-with the release-CAS (8, 9, 10, 12, 15)
@@ -349,6 +350,10 @@ public:
       info.prev = &info.cur->next;
       info.save = std::move(info.cur);
       info.cur = std::move(tmp_guard);
+    } else if (next.mark() == 0) {
+      // cur->next has changed, but cur itself is not marked (e.g. a node has been inserted after cur)
+      // -> retry; find would stop at cur again and the same element would be yielded twice
+      goto retry;
     } else {
       // cur is marked for removal
       // -> use find to remove it and get to the next node with a key >= cur->key
